@@ -121,6 +121,8 @@ var specs = map[string]*propSpec{
 			{engine: "rangekill", qBatches: 16, qCases: 4, tBatches: 32, tCases: 15},
 			// the range plugin is the one cgo path (go-sqlite3): hostile hostnames/MACs under AddressSanitizer
 			{engine: "range", buildFlags: []string{"-asan"}, parallel: 8, tBatches: 16, tCases: 6},
+			// the database written by the real binary (several listeners, one range instance) reopens and restores
+			wireRun(2, 8),
 		},
 		guards: []guard{{"range.crash_points", 1500, "crash points"}, {"range.restarts", 10, "restarts"}, {"rangekill.acked_bindings_verified", 100, "bindings verified after SIGKILL"}, {"range.slow_renewals", 10, "renewals after real pauses (expiry must follow the clock)"}},
 	},
